@@ -127,7 +127,7 @@ def behave(build, prog, cfg):
 def run(ctx):
     ctx.prove('LPVerif.Props.C08', 'LPVerif/Props/C08.lean', drivers=('PyAst',))
     build = ctx.build()
-    n = 60 if ctx.quick else 1200
+    n = 100 if ctx.quick else 1200
     if ctx.broken:
         n *= 3
     cases = []
